@@ -568,7 +568,11 @@ fn remove_dnssec(
                 ob.set_udp_payload_size(opt.udp_payload_size());
                 ob.set_version(opt.version());
                 for o in opt.opt().iter() {
-                    let x: AllOptData<_, _> = o.expect("should not fail");
+                    // Options the upstream sent in a form we cannot parse
+                    // are dropped.
+                    let Ok(x): Result<AllOptData<_, _>, _> = o else {
+                        continue;
+                    };
                     ob.push(&x)?;
                 }
                 Ok(())
@@ -651,7 +655,11 @@ fn add_opt(
                 ob.set_udp_payload_size(opt.udp_payload_size());
                 ob.set_version(opt.version());
                 for o in opt.opt().iter() {
-                    let x: AllOptData<_, _> = o.expect("should not fail");
+                    // Options the upstream sent in a form we cannot parse
+                    // are dropped.
+                    let Ok(x): Result<AllOptData<_, _>, _> = o else {
+                        continue;
+                    };
                     ob.push(&x).expect("should not fail");
                 }
                 ob.push(&ede).expect("should not fail");
@@ -698,7 +706,11 @@ fn serve_fail(
                 ob.set_udp_payload_size(opt.udp_payload_size());
                 ob.set_version(opt.version());
                 for o in opt.opt().iter() {
-                    let x: AllOptData<_, _> = o.expect("should not fail");
+                    // Options the upstream sent in a form we cannot parse
+                    // are dropped.
+                    let Ok(x): Result<AllOptData<_, _>, _> = o else {
+                        continue;
+                    };
                     ob.push(&x).expect("should not fail");
                 }
                 if let Some(ede) = opt_ede {
